@@ -47,7 +47,7 @@ theorem decode_encode_ext (ty : UInt8) (s rest : Bytes) (h : s.length < 42949672
     ext.dec (ext.enc (ty, s) ++ rest) = .ok (ty, s) rest :=
   lawful_ext.roundtrip (ty, s) rest h
 
-example : (List.replicate 65536 7 : Bytes).length < 4294967296 := by simp
+example : (List.replicate 65536 7 : Bytes).length < 4294967296 := by rw [List.length_replicate]; omega
 
 /-- `std::vector<T>` for any element type whose codec round-trips, any length below 2^32 -/
 theorem decode_encode_arr {α : Type} (c : Codec α) (P : α → Prop) (hc : Lawful c P) (l : List α) (rest : Bytes)
